@@ -162,6 +162,23 @@ func init() {
 			}
 			k(st, nil)
 		},
+		"(*net.UDPConn).ReadFromUDP": func(e *Engine, st *State, fr *Frame, site ssa.Instruction, callee *ssa.Function, args []Value, k cont) {
+			// a blocking socket read: it waits on nothing but the socket, so no context cancellation
+			// (and no channel close) can wake it; every "wakes" clause of the caller fails here
+			if fr.contract != nil {
+				for _, w := range fr.contract.Wakes {
+					e.Assert(st, fr, "wakes", w.Label+"@"+e.siteOf(fr, site), TFalse)
+				}
+			}
+			b := args[1].(VSlice)
+			e.havocObject(st, types.Typ[types.Uint8], b.Arr)
+			res := e.freshResults(st, callee.Signature, "ReadFromUDP")
+			n := res[0].(Term)
+			addr := res[1].(VPtr)
+			errV := res[2].(VIface)
+			st.Assume(Implies(Eq(errV.Tag, TZero), And(Le(TZero, n), Le(n, b.Len), Neq(addr.Ref, TZero))))
+			k(st, res)
+		},
 		"bytes.Compare": func(e *Engine, st *State, fr *Frame, site ssa.Instruction, callee *ssa.Function, args []Value, k cont) {
 			a, b := args[0].(VSlice), args[1].(VSlice)
 			h := bytesHeap(e, st)
